@@ -155,6 +155,21 @@ class NodeWorld:
             self.world.obs("reconnect_check")
             return orig_rp()
         node._reconnect_peers = rp
+        # observation wrapper: answers the node accepted for transmission (send_message returned), by identifiers; "answered" in
+        # the sense of the duplicate-detection clauses means this, whether or not the bytes later made it onto the wire
+        self.answers_accepted = set()
+        if hasattr(node, "send_message"):
+            orig_sm = node.send_message
+
+            def sm(conn, message):
+                r = orig_sm(conn, message)
+                try:
+                    if not message.header.is_request:
+                        self.answers_accepted.add((message.header.hop_by_hop_identifier, message.header.end_to_end_identifier))
+                except Exception:
+                    pass
+                return r
+            node.send_message = sm
         self.clients = []           # environment-side handles of accepted sockets
         self.driver_failures = []   # exceptions escaping node calls made by the driver itself (node.start)
         if start:
